@@ -71,7 +71,8 @@ structure St where
   conns : List Conn := []                     -- all created connections (newest first)
   transit : List Conn := []                   -- ghost: held by a pool routine between sections
   dialing : List Want := []                   -- ghost: running dial goroutines (hold a slot)
-  panicked : Bool := false                    -- "connCount underflow" / "already in LRU" / dup idle
+  dupPanic : Bool := false                    -- "persistConn was already in LRU" / "dup idle pconn"
+  underflow : Bool := false                   -- "connCount underflow" panic in decConnsPerHost
 
 inductive PutErr where
   | ok | keepAlivesDisabled | broken | closeIdle | tooManyIdleHost
@@ -137,7 +138,7 @@ def startDial (s : St) (w : Want) : St :=
 /-- `decConnsPerHost(key)` -/
 def decConns (cfg : Cfg) (s : St) (k : Key) : St :=
   if cfg.maxConnsPerHost ≤ 0 then s
-  else if s.cph k = 0 then { s with panicked := true }
+  else if s.cph k = 0 then { s with underflow := true }
   else
     match popUntilWaiting s.wst (s.dialWait k) with
     | (some w, q) => startDial { s with dialWait := upd s.dialWait k q } w
@@ -160,6 +161,17 @@ def removeIdleLocked (s : St) (c : Conn) : St × Bool :=
     if (s.idle k).contains c then ({ s1 with idle := upd s.idle k ((s.idle k).erase c) }, true)
     else (s1, false)
 
+/-- `oldest := t.idleLRU.removeOldest(); oldest.close(errTooManyIdle); t.removeIdleConnLocked(oldest)` -/
+def evictOldest (cfg : Cfg) (s : St) : St :=
+  match s.lru.getLast? with
+  | none => s
+  | some oldest => (removeIdleLocked (closeConn cfg { s with lru := s.lru.dropLast } oldest) oldest).1
+
+/-- Tail of `tryPutIdleConn`: append to the idle list and the LRU, evict above `MaxIdleConns`. -/
+def addIdle (cfg : Cfg) (s : St) (c : Conn) (k : Key) : St :=
+  let s2 := { s with idle := upd s.idle k (s.idle k ++ [c]), lru := c :: s.lru }
+  if cfg.maxIdle ≠ 0 ∧ s2.lru.length > cfg.maxIdle then evictOldest cfg s2 else s2
+
 /-- `tryPutIdleConn(pconn)` for an HTTP/1.1 connection with cache key `k`. -/
 def tryPut (cfg : Cfg) (s : St) (c : Conn) (k : Key) : St × PutErr :=
   if cfg.disableKeepAlives || cfg.maxIdlePerHost < 0 then (s, .keepAlivesDisabled)
@@ -172,17 +184,8 @@ def tryPut (cfg : Cfg) (s : St) (c : Conn) (k : Key) : St × PutErr :=
       let s1 := { s with idleWait := upd s.idleWait k q }
       if s1.closeIdle then (s1, .closeIdle)
       else if (s1.idle k).length ≥ cfg.idlePerHost then (s1, .tooManyIdleHost)
-      else if (s1.idle k).contains c || s1.lru.contains c then ({ s1 with panicked := true }, .ok)
-      else
-        let s2 := { s1 with idle := upd s1.idle k (s1.idle k ++ [c]), lru := c :: s1.lru }
-        if cfg.maxIdle ≠ 0 ∧ s2.lru.length > cfg.maxIdle then
-          match s2.lru.getLast? with
-          | none => (s2, .ok)
-          | some oldest =>
-            -- oldest := removeOldest(); oldest.close(errTooManyIdle); removeIdleConnLocked(oldest)
-            let s3 := closeConn cfg { s2 with lru := s2.lru.dropLast } oldest
-            ((removeIdleLocked s3 oldest).1, .ok)
-        else (s2, .ok)
+      else if (s1.idle k).contains c || s1.lru.contains c then ({ s1 with dupPanic := true }, .ok)
+      else (addIdle cfg s1 c k, .ok)
 
 /-- `queueForIdleConn(w)`; the Bool is `delivered`. -/
 def queueIdle (cfg : Cfg) (s : St) (w : Want) (k : Key) : St × Bool :=
@@ -214,7 +217,7 @@ def step (cfg : Cfg) (s : St) : Op → St × Out
   | .newWant w k =>
     match s.wkey w with
     | some _ => (s, .ignored)
-    | none => ({ s with wkey := upd s.wkey w (some k), wst := upd s.wst w .waiting }, .none)
+    | none => ({ s with wkey := upd s.wkey w (some k) }, .none)
   | .queueIdle w =>
     match s.wkey w with
     | none => (s, .ignored)
